@@ -214,14 +214,60 @@ func checkC14(c *Check) {
 	}
 	runStmtKinds(c, "STMT-KINDS", "ProcessCalls", pc)
 	// guard before effect in the handlers
+	// walkers: ProcessCalls and every repository function that forwards one of its
+	// own parameters to a walker's handler slot (a helper such as walkEndpoints);
+	// for each walker the positions of the handler and of the application name.
+	type slots struct{ handler, app int }
+	walkers := map[*ssa.Function]slots{}
+	if pcf := p.FuncByName("pkg/integrationdiagram.ProcessCalls"); pcf != nil && len(pcf.Params) >= 4 {
+		walkers[pcf] = slots{handler: 3, app: 0}
+	}
+	for changed, round := true, 0; changed && round < 4; round++ {
+		changed = false
+		for _, f := range p.RepoFuncs() {
+			if _, done := walkers[f]; done || fnPkgPath(f) != repoMod+"/pkg/integrationdiagram" {
+				continue
+			}
+			eachCall(f, func(cl ssa.CallInstruction) {
+				w, ok := walkers[normFn(p, staticCallee(cl))]
+				if !ok {
+					return
+				}
+				ops := opsOf(cl)
+				if w.handler >= len(ops) || w.app >= len(ops) {
+					return
+				}
+				hp, isH := unspill(ops[w.handler]).(*ssa.Parameter)
+				ap, isA := unspill(ops[w.app]).(*ssa.Parameter)
+				if !isH {
+					return
+				}
+				sl := slots{handler: paramIndex(f, hp), app: -1}
+				if isA {
+					sl.app = paramIndex(f, ap)
+				}
+				if sl.handler >= 0 {
+					walkers[f] = sl
+					changed = true
+				}
+			})
+		}
+	}
+	isWalkerCall := func(cl ssa.CallInstruction) (slots, bool) {
+		sc := staticCallee(cl)
+		if sc == nil {
+			return slots{}, false
+		}
+		w, ok := walkers[normFn(p, sc)]
+		return w, ok
+	}
 	handlers := map[*ssa.Function]bool{}
 	for _, f := range p.RepoFuncs() {
 		eachCall(f, func(cl ssa.CallInstruction) {
-			sc := staticCallee(cl)
-			if sc == nil || fnName(sc) != "pkg/integrationdiagram.ProcessCalls" {
+			if _, ok := isWalkerCall(cl); !ok {
 				return
 			}
-			for _, a := range cl.Common().Args {
+			for _, a := range opsOf(cl) {
 				if fn, ok := stripFuncValue(a); ok {
 					handlers[normFn(p, fn)] = true
 				}
@@ -237,21 +283,22 @@ func checkC14(c *Check) {
 	untrusted := map[*ssa.Function]bool{}
 	for _, f := range p.RepoFuncs() {
 		eachCall(f, func(cl ssa.CallInstruction) {
-			sc := staticCallee(cl)
-			if sc == nil || fnName(sc) != "pkg/integrationdiagram.ProcessCalls" || len(cl.Common().Args) < 4 {
+			w, ok := isWalkerCall(cl)
+			if !ok || w.app < 0 || w.app >= len(opsOf(cl)) {
 				return
 			}
-			admitted := derives(cl.Common().Args[0], func(v ssa.Value) bool {
+			appArg := opsOf(cl)[w.app]
+			admitted := derives(appArg, func(v ssa.Value) bool {
 				_, fld, _, ok := loadedField(v)
 				return ok && (fld == "SeedApps" || fld == "FinalApps" || fld == "SeedAppsMap" || fld == "FinalAppsMap")
 			}, nil)
-			if _, isParam := unspill(cl.Common().Args[0]).(*ssa.Parameter); isParam {
+			if _, isParam := unspill(appArg).(*ssa.Parameter); isParam {
 				admitted = true // forwarded by the recursive descent / pass-through walk
 			}
 			if admitted {
 				return
 			}
-			for _, a := range cl.Common().Args {
+			for _, a := range opsOf(cl) {
 				if fn, ok := stripFuncValue(a); ok {
 					untrusted[normFn(p, fn)] = true
 				}
